@@ -76,13 +76,15 @@ func ruleL0(r *Report) {
 	for fn := range r.P.modFunc {
 		allInstrs(fn, func(ins ssa.Instruction) {
 			if cc, _, _ := callCommon(ins); cc != nil {
-				if op, ok := L.classifyLock(cc, fn); ok {
+				if ops, ok := L.classifyLocks(cc, fn); ok {
 					n := fnName(fn)
 					if fns[n] == nil {
 						fns[n] = &info{fn: fn}
 					}
-					fns[n].ops = append(fns[n].ops, op)
-					fns[n].ins = append(fns[n].ins, ins)
+					for _, op := range ops {
+						fns[n].ops = append(fns[n].ops, op)
+						fns[n].ins = append(fns[n].ins, ins)
+					}
 				}
 			}
 		})
